@@ -25,6 +25,8 @@ func init() {
 		Explanation: "Decides the finite tables of the boolean operations for every input that reaches them: each public wrapper passes the op constant of its name, its own operands and NonZero; SweepPoint.InResult's per-op membership expressions equal the property's truth table over (subject fills, clipping fills) on each side of an edge and an edge is kept iff filling changes; the pathOp switch is exhaustive; bentleyOttmann's four early-outs (Q empty, P empty, disjoint sub-path of P, of Q) keep an operand exactly for the ops whose truth table keeps it. NOT decided: the sweep itself, snap rounding, overlap merging, contour tracing, termination, area laws.",
 		Run: func(c *core.Ctx, r *core.Report) {
 			E9AbsorbedLink(c, r)
+			E9HoleParity(c, r)
+			E9WindingsSync(c, r)
 			E9Wrappers(c, r, map[string]bool{"And": true, "Or": true, "Xor": true, "Not": true, "DivideBy": true})
 			E9InResult(c, r, []string{"opAND", "opOR", "opNOT", "opXOR", "opDIV"})
 			E9Shortcuts(c, r)
@@ -35,6 +37,8 @@ func init() {
 		Explanation: "Decides: FillRule.Fills is definite on the sign×parity classes of the winding number and equals each rule's definition, with a case for all four rules; the Settle entry points pass nil, opSettle and their own fill rule to the sweep; opSettle membership is the subject's own fill on each side; settling an empty path yields the empty path. NOT decided: canonical form, hole orientation, idempotence, the sweep.",
 		Run: func(c *core.Ctx, r *core.Report) {
 			E9AbsorbedLink(c, r)
+			E9HoleParity(c, r)
+			E9WindingsSync(c, r)
 			E9Fills(c, r)
 			E9Wrappers(c, r, map[string]bool{"Settle": true})
 			E9InResult(c, r, []string{"opSettle"})
@@ -64,6 +68,7 @@ func init() {
 			E2RecordConstruction(c, r)
 			E11CutCarried(c, r)
 			E11SubpathFlag(c, r)
+			E2MoveReplayed(c, r)
 		},
 	})
 }
@@ -83,6 +88,8 @@ func init() {
 			E4ParserGuards(c, r)
 			E4ParserProgress(c, r)
 			E11SVGSmooth(c, r)
+			E4ValueOnError(c, r)
+			E11PrecisionUnit(c, r)
 			E2PenTracking(c, r, []string{"Path.ToSVG", "Path.ToPS", "Path.ToPDF"})
 			r.Rule("E4.panic-reach", "no explicit panic(...) call in the module or its Go dependencies is reachable in the VTA call graph from ParseSVGPath or ParseSVG, except sites in the reviewed table (function + message -> why no parser input reaches it)")
 			roots := []*ssa.Function{c.SSAFunc("", "ParseSVGPath"), c.SSAFunc("", "ParseSVG")}
@@ -271,6 +278,7 @@ func init() {
 			E11BreakWidth(c, r)
 			E11SpanShift(c, r)
 			E11GlyphCursor(c, r)
+			E11ItemsCoverGlyphs(c, r)
 		},
 	})
 }
